@@ -81,10 +81,10 @@ def softmax_rows(z):
     return e / e.sum(axis=1, keepdims=True)
 
 
-def perturbations(X, masked, rng):
+def perturbations(X, masked, rng, kinds=("normal", "huge", "roll")):
     """Arbitrary rewrites of the masked-out columns of X."""
     out = []
-    for kind in ("normal", "huge", "roll"):
+    for kind in kinds:
         Y = X.copy()
         for f in masked:
             if kind == "normal":
